@@ -639,9 +639,11 @@ def solve(hyps, goal, timeout_ms=20000, dyadic_syms=None, seed=0, allow_split=Tr
             s.add(*axioms)
             if s.check() != z3.unsat:
                 ok = False
-                if MBQI_FIRST[0]:
+                if True:
+                    # second strategy for the same (sound) query: model-based instantiation only, no E-matching -- an `unsat`
+                    # is a proof whichever strategy finds it; makes the verdict robust against E-matching running away
                     s = z3.Solver()
-                    s.set("timeout", max(5000, timeout_ms // 2))
+                    s.set("timeout", max(5000, timeout_ms // 2) if MBQI_FIRST[0] else min(10000, max(5000, timeout_ms // 2)))
                     s.set("random_seed", seed)
                     s.set("smt.ematching", False)
                     s.add(*terms)
